@@ -573,11 +573,13 @@ def generate_real_spherical_harmonics_scipy(l_max: int, theta: np.ndarray, phi: 
         )
 
     # SciPy assumes a polar angle in [0, pi]: map angles outside that range to the principal
-    # angles of the same point on the sphere, (theta, phi) -> (theta + pi, arccos(cos(phi))).
+    # angles of the same point on the sphere, (theta, phi) -> (theta + pi, arccos(cos(phi))); the
+    # reduced polar angle is computed as arctan2(|sin(phi)|, cos(phi)), which equals arccos(cos(phi))
+    # but stays accurate next to the poles (arccos is ill-conditioned at -1 and 1).
     outside = (phi < 0) | (phi > np.pi)
     if np.any(outside):
         theta = np.where(outside & (np.sin(phi) < 0), theta + np.pi, theta)
-        phi = np.where(outside, np.arccos(np.cos(phi)), phi)
+        phi = np.where(outside, np.arctan2(np.abs(np.sin(phi)), np.cos(phi)), phi)
 
     # sph_vals (i, j) corresponds to degree i and order j for all 0 <= i <= n and -m <= j <= m
     sph_vals = sph_harm_y_all(l_max, l_max, phi, theta)
